@@ -502,6 +502,11 @@ func (c *Conn) Parse(data []byte) (retErr error) {
 					if fin {
 						message = c.message
 						c.message = nil
+						if message == nil {
+							// an empty message (no payload in any fragment)
+							// is a message too and must be delivered.
+							message = allocator.Malloc(0)
+						}
 						if c.compress {
 							var pb *[]byte
 							var rc io.ReadCloser
